@@ -310,7 +310,9 @@ func execSched(in Ev) []Ev {
 	off := &gater{off: true}
 	seq := make([]string, procs)
 	for p := 1; p <= procs; p++ {
-		seq[p-1] = s.eval(p, off)
+		// the sequential result under p's values, from a freshly parsed instance that evaluates nothing else
+		fs, _ := newC19subject(what, text, procs)
+		seq[p-1] = fs.eval(p, off)
 	}
 	gates := make([][]string, procs)
 	for p := 1; p <= procs; p++ {
@@ -405,7 +407,8 @@ func execRepeat(in Ev) []Ev {
 	out := []Ev{{"op": "rstart", "what": what, "text": text, "order": order, "snap": s.snapshot()}}
 	off := &gater{off: true}
 	for _, p := range order {
-		out = append(out, Ev{"op": "reval", "env": p, "result": s.eval(p, off)})
+		fs, _ := newC19subject(what, text, 3)
+		out = append(out, Ev{"op": "reval", "env": p, "result": s.eval(p, off), "fresh": fs.eval(p, off)})
 	}
 	out = append(out, Ev{"op": "rend", "snap": s.snapshot()})
 	return out
